@@ -136,3 +136,43 @@ func (g *gear2) Contains(c model3d.Coord3D) bool {
 	v1, _ := g.P2.Sub(g.P1).OrthoBasis()
 	return v1.Dot(c.Sub(g.P1)) < 1
 }
+
+type gen struct{}
+
+func (g *gen) Float64() float64 { return 0.5 }
+
+// want:ROULETTE the draw is never reduced.
+func PickBad(g *gen, probs []float64) int {
+	p := g.Float64()
+	for i, w := range probs {
+		if p < w {
+			return i
+		}
+	}
+	return len(probs) - 1
+}
+
+// clean:ROULETTE
+func PickGood(g *gen, probs []float64) int {
+	p := g.Float64()
+	for i, w := range probs {
+		p -= w
+		if p < 0 {
+			return i
+		}
+	}
+	return len(probs) - 1
+}
+
+// clean:ROULETTE
+func PickAccum(g *gen, probs []float64) int {
+	p := g.Float64()
+	acc := 0.0
+	for i, w := range probs {
+		acc += w
+		if p < acc {
+			return i
+		}
+	}
+	return len(probs) - 1
+}
